@@ -217,16 +217,21 @@ def run_case(case):
                 sig = 'C19/outside-answered' + ('' if far else '/near-face')
                 viol.setdefault(sig, {'signature': sig, 'what': obl.failed[0][0][:300], 'outside': pt, 'model': None})
 
-    def canary(ctx):
-        for l in range(ref.nlev):
-            for b, (blo, bhi) in enumerate(ref.boxes[l]):
-                if all(bhi[d] - blo[d] + 1 >= 3 for d in range(3)):
+    # reachability twin: on the first box that has a decidable cell at all, a wrong expectation must be noticed
+    # (a structure whose eligible cells all lie under finer boxes decides nothing and carries no canary)
+    fired = None
+    for l in range(ref.nlev):
+        for b, (blo, bhi) in enumerate(ref.boxes[l]):
+            if fired is None and all(bhi[d] - blo[d] + 1 >= 3 for d in range(3)):
+                def canary(ctx, l=l, b=b):
                     return query(mods, ref, '0', l, b, ctx, canary=True)
-        return None
-    cres, _, _ = core.explore(canary, max_paths=400)
-    res['canaries'] += 1
-    if any(o is not None and o.failed for _, o in cres):
-        res['canaries_fired'] += 1
+                cres, _, _ = core.explore(canary, max_paths=400)
+                if any(o is not None for _, o in cres):
+                    fired = any(o is not None and o.failed for _, o in cres)
+    if fired is not None:
+        res['canaries'] += 1
+        if fired:
+            res['canaries_fired'] += 1
     res['distinct'] = ['%s/%d' % (case['label'], i) for i in range(n)]
     res['extra'] = {'cells_decided': n}
     res['sample'] = {'structure': ref.describe(), 'field_selectors': fsels, 'cells_decided': n}
@@ -281,6 +286,15 @@ def cases():
     for i, m in enumerate(ms):
         for k in range(2 if tier == 'quick' else 3):
             out.append({'label': '%s/k%d' % (m.name, k), 'mesh': m, 'fields': fsets[(i + k) % 2], 'layout': families.scatter_layouts(m, rnd, 2), 'geom': (i + k) % 3})
+    # random structures (incl. multi-patch levels and shuffled listings): boxes thinner than 3 cells are skipped by the check itself
+    n = 0
+    while n < (4 if tier == 'quick' else 80):
+        m = families.random_mesh(rnd, 3, max_levels=3, max_boxes=3, max_extent=6)
+        if not any(all(h - l + 1 >= 3 for l, h in zip(blo, bhi)) for lv in m.boxes for blo, bhi in lv):
+            continue
+        m.name = 'rand%d' % n
+        n += 1
+        out.append({'label': m.name, 'mesh': m, 'fields': fsets[n % 2], 'layout': families.scatter_layouts(m, rnd, 2), 'geom': n % 3})
     return out
 
 
